@@ -4,6 +4,18 @@ import json, os
 HERE = os.path.dirname(os.path.abspath(__file__))
 
 CHECKS = {
+ "C01": ("seeded scheduler histories (outside calls and scripted protothread fibres) in lock step with a reference scheduler; library restart by data-segment restore; tape shrinking and exact replay",
+         "Seeded exploration of histories of fibre_run / fibre_run_atomic / fibre_kill / fibre_scheduler_next(t) issued from outside and from inside 1-6 real protothread fibres that return yielded/waiting/exited/failed, with kill, spurious-run, queue-full and clock-stall faults, followed by a fault-free flush to quiescence; which fibre each pass dispatches, start-versus-resume, fibre_self and every return value are compared with a reference scheduler written from the statement (no fast path).",
+         "Sequential mode: interrupt-context requests arrive between API calls only (their interleaving inside calls belongs to C06). The generator keeps to the property's scope (one unsatisfied timeout per dispatch, at most 8 undrained requests unless the queue-full fault is on, small time base)."),
+ "C02": ("seeded timer-heavy scheduler histories on a simulated 32-bit cyclic clock placed at the wrap points; reference timer model plus translation-invariance re-execution",
+         "Same harness and reference scheduler as C01 with a timer-heavy swarm: due times at <=0, 1, ties and up to 2^30 ahead; the simulated clock stalls, single-steps, lands exactly on, one short of and far beyond due times, and its base is placed by the tape at 0, 2^31-k, 2^32-k or anywhere; every third history is executed a second time with the time base translated and the two dispatch logs must be identical, which checks wrap-safety without trusting the model.",
+         "Scope of the property is enforced by the generator: all pending due times within 2^31 ticks after the current time."),
+ "C03": ("seeded scheduler histories checking every returned wake-up time against the reference scheduler state; discrete-event flush that sleeps exactly as told",
+         "Every value returned by fibre_scheduler_next in the C01/C02-style histories (both swarms) is compared with the reference: t if anything is runnable on return (run queue, the fibre that just yielded, an accepted undrained atomic request), else the earliest pending due time, else t+FIBRE_UNBOUNDED_SLEEP; the closing flush sleeps exactly until the returned time and every owed dispatch must still happen.",
+         "This registration covers the history part (a); interrupts landing inside fibre_scheduler_next are exercised by the sim-flavour harness when registered for this property (see DESIGN.md C03 b)."),
+ "C10": ("seeded (geometry, history) pairs against a bounded-FIFO reference model; both construction routes in lock step; ASan exact-size storage",
+         "Seeded exploration over queue depth 1..32 (weight on 1, 2, 31, 32), message size 1..40, slack bytes and construction route (messageq_init, MESSAGEQ_VAR_INIT with run-time values, or both in lock step) with histories of claim, reordered send, receive, delayed release and empty; every pointer/NULL result is compared with a cyclic-counter/FIFO model and slack bytes are checked after every operation.",
+         "Sequential histories only (concurrency is C04); releases follow receives and sends name claimed buffers (the API's rules)."),
  "C14": ("seeded stream-fault injection (truncation, hostile size fields, bit flips, noise) into reference headers; independent 64-bit chunk walker plus prefix/incremental-reader self-consistency oracles; ASan exact-size buffers",
          "Seeded exploration of byte streams: well-formed headers from a reference writer subjected to tape-chosen fault sequences, and pure noise, each decoded from an exact-size heap block; accepted lengths must be at least the minimum, equal the structural length of consistent headers, be exact, and every proper prefix of an accepted header (all are tried) plus a chunked incremental reader must never succeed early; the three helper functions are run on every resulting structure with allocation failures injected.",
          "Which malformed inputs are rejected is not judged (the property does not prescribe it); the structural-length oracle applies only to headers the independent walker finds consistent."),
